@@ -14,6 +14,7 @@ var prop = &harness.Property{
 		{Name: "N", Weight: 2, Run: scenarioN},
 		{Name: "B", Weight: 3, Run: scenarioB},
 		{Name: "G", Weight: 3, Run: scenarioG},
+		{Name: "K", Weight: 1, Run: scenarioK},
 		{Name: "L", Weight: 3, Run: scenarioL},
 	},
 	Real:        []string{"net/queue.LinkedListQueue", "net/queue.ChannelQueue", "bot.Conn (warpConn reader/writer goroutines)", "bot.Client.HandleGame/handleBundlePackets/handlePacket over bot.Conn (resumed after handler errors)", "net/packet Pack/UnPack with bufPool/zlibPool", "nbt encode/decode with the per-type cache", "server.PlayerList"},
